@@ -1,6 +1,7 @@
 import ArrProofs.Lemmas.C12Rot
 import ArrProofs.Lemmas.C12FlipAll
 import ArrProofs.Lemmas.C12Roll
+import ArrProofs.Lemmas.C12Empty
 /-!
 # C12 — flip, roll and quarter-turn rotation are exact coordinate maps with inverses
 
@@ -8,7 +9,8 @@ Model under test: `ArrModel/Reorder.lean` (`flipAxis` / `rollAxis` with their th
 `accumShifts`, `Arr.flip/flipud/fliplr/roll/rot90`).  Every statement is for every rank, every axis length and every
 integer shift (no bound).  Standing hypotheses of the coordinate theorems: the array is well formed
 (`elems.length = shape.prod`) and has no axis of length zero (on an empty array there is no coordinate to speak about and
-the Rust code may refuse the split).
+the Rust code may refuse the split — exactly when, is the subject of the last section: `flip_list_empty`, `roll_axis_empty`,
+`rot90_empty`, and the statements for every well-formed array `flip_total`, `roll_total`, `rot90_total`, `…_never_panics`).
 
 Vocabulary (definitions in `Lemmas/C12Perm.lean`, `Lemmas/C12Arr.lean`):
 `flipCoord shape k c = c.set k (shape[k] − 1 − c[k])`, `rollIdx s n i = ((i − s) mod n)` (Euclidean remainder on `Int`),
@@ -545,5 +547,277 @@ example : (⟨List.range 6, [2, 3]⟩ : Arr Nat).rot90 0 1 [0, 1] = .ok ⟨[2, 5
 example : (⟨List.range 6, [2, 3]⟩ : Arr Nat).rot90 0 7 [0, -1] = .ok ⟨[3, 0, 4, 1, 5, 2], [3, 2]⟩ := by decide
 example : (2 : Nat) ≤ (⟨List.range 6, [2, 3]⟩ : Arr Nat).ndim ∧ (-(2 : Int) ≤ -1 ∧ (-1 : Int) < 2) := by decide
 example : (⟨List.range 6, [2, 3]⟩ : Arr Nat).flip (some [2]) = .err .AxisOutOfBounds := by decide
+
+/-! ### arrays with a zero-length axis, and the total statements (extension; proofs in `Lemmas/C12Empty.lean`)
+
+The coordinate theorems above assume that no axis has length 0.  What follows says what the MODEL does on every well-formed
+array that HAS a zero-length axis (such an array has no elements), for every rank and every axis, and closes with
+statements about EVERY well-formed array.  The code still CUTS the empty element vector: the first-axis arm into `shape[0]`
+blocks, the last-axis arm into `prod shape[..ax]` rows, the inner-axis arm into `shape[0]` blocks with recursion; a cut
+into 0 parts is refused (`ParameterError`), a cut of the empty vector into `p > 0` parts gives the single empty piece.
+`cutAxes ax shape` (`Lemmas/C12Empty.lean`) = the axes the code cuts along for axis `ax`: `shape[0..ax]`, except that the
+last axis of an array of rank ≥ 2 needs `shape[0..ax−1]` only.  Outcome: `Err(ParameterError)` when one of these has length
+0, otherwise the array unchanged.  (So the operation is NOT total on empty arrays: `[0,3]` cannot be flipped along any
+axis, `[2,0]` along both.)  That the real crate does the same is established by the zero-length stream of the tie. -/
+
+/-- **core, empty vector**: `flip_axis` / `roll_axis` on the empty element vector of a shape with a zero-length axis -/
+theorem flipAxis_rollAxis_empty (ax : Nat) (shape : List Nat) (s : Int) (h0 : 0 ∈ shape) (hax : ax < shape.length) :
+    flipAxis ax shape ([] : List α) = (if 0 ∈ cutAxes ax shape then .err .ParameterError else .ok []) ∧
+    rollAxis ax shape s ([] : List α) = (if 0 ∈ cutAxes ax shape then .err .ParameterError else .ok []) :=
+  ⟨flipAxis_nil ax shape (prod_eq_zero_of_mem _ h0) hax, rollAxis_nil ax shape s (prod_eq_zero_of_mem _ h0) hax⟩
+
+/-- the axes cut along are among `shape[0..ax]`: when all of these are non-empty the operation succeeds -/
+theorem cutAxes_subset (ax : Nat) (shape : List Nat) : ∀ d ∈ cutAxes ax shape, d ∈ shape.take (ax + 1) := by
+  intro d hd
+  unfold cutAxes at hd
+  split at hd
+  · have : shape.take ax = (shape.take (ax + 1)).take ax := by rw [List.take_take]; congr 1; omega
+    rw [this] at hd; exact List.mem_of_mem_take hd
+  · exact hd
+
+/-- **flip of an empty array along a list of valid axes** (any spelling, repetitions allowed) -/
+theorem flip_list_empty (a : Arr α) (axes : List Int) (hwf : a.WF) (h0 : 0 ∈ a.shape)
+    (hv : ∀ x ∈ axes, normalizeAxis a.ndim x < a.ndim) :
+    a.flip (some axes) =
+      if axes.any (fun x => decide (0 ∈ cutAxes (normalizeAxis a.ndim x) a.shape)) then .err .ParameterError else .ok a :=
+  flip_empty a axes hwf h0 hv
+
+/-- **flip of an empty array along one axis** -/
+theorem flip_axis_empty (a : Arr α) (ax : Int) (hwf : a.WF) (h0 : 0 ∈ a.shape) (hk : normalizeAxis a.ndim ax < a.ndim) :
+    a.flip (some [ax]) = if 0 ∈ cutAxes (normalizeAxis a.ndim ax) a.shape then .err .ParameterError else .ok a := by
+  rw [flip_empty a [ax] hwf h0 (fun x hx => by simp at hx; subst hx; exact hk)]
+  simp only [List.any_cons, List.any_nil, Bool.or_false, decide_eq_true_eq]
+
+/-- **flip without axes, `flipud`, `fliplr` on an empty array** -/
+theorem flip_none_ud_lr_empty (a : Arr α) (hwf : a.WF) (h0 : 0 ∈ a.shape) :
+    a.flip none = .ok a ∧
+    (1 ≤ a.ndim → a.flipud = if 0 ∈ cutAxes 0 a.shape then .err .ParameterError else .ok a) ∧
+    (2 ≤ a.ndim → a.fliplr = if 0 ∈ cutAxes 1 a.shape then .err .ParameterError else .ok a) := by
+  refine ⟨flip_none_empty a hwf h0, fun h => ?_, fun h => ?_⟩
+  · have e : normalizeAxis a.ndim 0 = 0 := normalizeAxis_ofNat _ 0
+    have := flip_axis_empty a 0 hwf h0 (by rw [e]; omega)
+    rw [e] at this
+    unfold Arr.flipud; rw [if_neg (by omega)]; exact this
+  · have e : normalizeAxis a.ndim 1 = 1 := normalizeAxis_ofNat _ 1
+    have := flip_axis_empty a 1 hwf h0 (by rw [e]; omega)
+    rw [e] at this
+    unfold Arr.fliplr; rw [if_neg (by omega)]; exact this
+
+/-- **flip is total up to the refusal on empty arrays**: EVERY well-formed array, every list of valid axes: the call
+succeeds with the shape kept, or — only possible when the array has a zero-length axis — answers `Err(ParameterError)` -/
+theorem flip_total (a : Arr α) (axes : List Int) (hwf : a.WF) (hv : ∀ x ∈ axes, normalizeAxis a.ndim x < a.ndim) :
+    (∃ r, a.flip (some axes) = .ok r ∧ r.shape = a.shape ∧ r.WF) ∨
+    (0 ∈ a.shape ∧ a.flip (some axes) = .err .ParameterError) := by
+  by_cases h0 : 0 ∈ a.shape
+  · rw [flip_empty a axes hwf h0 hv]; split
+    · exact Or.inr ⟨h0, rfl⟩
+    · exact Or.inl ⟨a, rfl, rfl, hwf⟩
+  · have hpos : ∀ d ∈ a.shape, 0 < d := fun d hd => Nat.pos_of_ne_zero (fun e => h0 (e ▸ hd))
+    obtain ⟨r, h1, h2, h3, _⟩ := flip_list_spec a axes hwf hpos hv
+    exact Or.inl ⟨r, h1, h2, h3⟩
+
+/-- **flip never panics**: every well-formed array, every axes argument (none, valid, invalid, any spelling) -/
+theorem flip_never_panics (a : Arr α) (axes : Option (List Int)) (hwf : a.WF) : a.flip axes ≠ .panic := by
+  cases axes with
+  | none => obtain ⟨r, h, _⟩ := flip_none a hwf; rw [h]; exact fun h => nomatch h
+  | some axes =>
+    by_cases hv : ∀ x ∈ axes, normalizeAxis a.ndim x < a.ndim
+    · rcases flip_total a axes hwf hv with ⟨r, h, _⟩ | ⟨_, h⟩ <;> rw [h] <;> exact fun h => nomatch h
+    · have : ∃ x ∈ axes, normalizeAxis a.ndim x ≥ a.ndim := by
+        apply Classical.byContradiction
+        intro hn; apply hv; intro x hx
+        apply Classical.byContradiction
+        intro hlt; exact hn ⟨x, hx, by omega⟩
+      rw [flip_rejects a axes this]; exact fun h => nomatch h
+
+/-- **roll of an empty array along one axis**: rank 1 — unchanged (the rank-1 arm rotates the vector itself, no cut);
+rank ≥ 2 — refused when the code cuts along a zero-length axis, otherwise unchanged -/
+theorem roll_axis_empty (a : Arr α) (s ax : Int) (hwf : a.WF) (h0 : 0 ∈ a.shape) (hk : normalizeAxis a.ndim ax < a.ndim) :
+    a.roll [s] (some [ax]) =
+      if 2 ≤ a.ndim ∧ 0 ∈ cutAxes (normalizeAxis a.ndim ax) a.shape then .err .ParameterError else .ok a := by
+  have hbc := broadcast_flat_same [s] [ax] rfl (by simp)
+  rw [roll_empty_of_bc a [s] [ax] _ _ hbc hwf h0 (fun p hp => by simp at hp; subst hp; exact hk)]
+  simp only [pairsOf, List.zip_cons_cons, List.zip_nil_right, List.map_cons, List.map_nil, accumShifts, List.find?_nil,
+    List.any_cons, List.any_nil, Bool.or_false, decide_eq_true_eq]
+
+/-- **roll of an empty array with equally long shift / axis lists** (repeated axes allowed) -/
+theorem roll_list_empty (a : Arr α) (shift axs : List Int) (hlen : shift.length = axs.length) (hne : shift ≠ [])
+    (hwf : a.WF) (h0 : 0 ∈ a.shape) (hv : ∀ x ∈ axs, normalizeAxis a.ndim x < a.ndim) :
+    a.roll shift (some axs) =
+      if 2 ≤ a.ndim ∧ (accumShifts (rollPairs a.ndim shift axs)).any (fun p => decide (0 ∈ cutAxes p.1 a.shape)) = true
+      then .err .ParameterError else .ok a :=
+  roll_empty_of_bc a shift axs _ _ (broadcast_flat_same shift axs hlen hne) hwf h0
+    (fun _ hp => hv _ (List.of_mem_zip hp).2)
+
+/-- **roll along the flattened order on an empty array**: unchanged -/
+theorem roll_flat_of_empty (a : Arr α) (s : Int) (hwf : a.WF) (h0 : 0 ∈ a.shape) : a.roll [s] none = .ok a :=
+  roll_flat_empty a s hwf h0
+
+/-- **roll is total up to the refusal on empty arrays**: EVERY well-formed array, equally long shift / axis lists of valid
+axes (in particular one shift and one axis), every integer shift: success with the shape kept, or — only when the array has
+a zero-length axis — `Err(ParameterError)`; the no-axis form always succeeds (`roll_flat`) -/
+theorem roll_total (a : Arr α) (shift axs : List Int) (hlen : shift.length = axs.length) (hne : shift ≠ [])
+    (hwf : a.WF) (hv : ∀ x ∈ axs, normalizeAxis a.ndim x < a.ndim) :
+    (∃ r, a.roll shift (some axs) = .ok r ∧ r.shape = a.shape ∧ r.WF) ∨
+    (0 ∈ a.shape ∧ a.roll shift (some axs) = .err .ParameterError) := by
+  by_cases h0 : 0 ∈ a.shape
+  · rw [roll_list_empty a shift axs hlen hne hwf h0 hv]; split
+    · exact Or.inr ⟨h0, rfl⟩
+    · exact Or.inl ⟨a, rfl, rfl, hwf⟩
+  · have hpos : ∀ d ∈ a.shape, 0 < d := fun d hd => Nat.pos_of_ne_zero (fun e => h0 (e ▸ hd))
+    obtain ⟨r, h1, h2, h3, _⟩ := roll_list_at a shift axs hlen hne hwf hpos hv
+    exact Or.inl ⟨r, h1, h2, h3⟩
+
+/-- **roll with one shift never panics**: every well-formed array, every axis argument (none, valid, invalid) -/
+theorem roll_never_panics (a : Arr α) (s : Int) (ax : Option Int) (hwf : a.WF) :
+    a.roll [s] (ax.map (fun x => [x])) ≠ .panic := by
+  cases ax with
+  | none => obtain ⟨r, h, _⟩ := roll_flat a s hwf; simp only [Option.map_none, h]; exact fun h => nomatch h
+  | some ax =>
+    simp only [Option.map_some]
+    by_cases hk : normalizeAxis a.ndim ax < a.ndim
+    · rcases roll_total a [s] [ax] rfl (by simp) hwf (fun x hx => by simp at hx; subst hx; exact hk) with ⟨r, h, _⟩ | ⟨_, h⟩ <;>
+        rw [h] <;> exact fun h => nomatch h
+    · rw [roll_rejects a s ax (by omega)]; exact fun h => nomatch h
+
+/-- **roll with equally long lists refuses an axis outside the rank**, wherever it stands in the list (every array) -/
+theorem roll_list_rejects_axis (a : Arr α) (shift axs : List Int) (hlen : shift.length = axs.length) (hne : shift ≠ [])
+    (h : ∃ x ∈ axs, normalizeAxis a.ndim x ≥ a.ndim) : a.roll shift (some axs) = .err .AxisOutOfBounds :=
+  roll_list_rejects a shift axs hlen hne h
+
+/-- **roll with equally long shift / axis lists never panics**: every well-formed array, every axes (valid or not,
+repeated or not), every integer shift -/
+theorem roll_list_never_panics (a : Arr α) (shift axs : List Int) (hlen : shift.length = axs.length) (hne : shift ≠ [])
+    (hwf : a.WF) : a.roll shift (some axs) ≠ .panic := by
+  by_cases hv : ∀ x ∈ axs, normalizeAxis a.ndim x < a.ndim
+  · rcases roll_total a shift axs hlen hne hwf hv with ⟨r, h, _⟩ | ⟨_, h⟩ <;> rw [h] <;> exact fun h => nomatch h
+  · have : ∃ x ∈ axs, normalizeAxis a.ndim x ≥ a.ndim := by
+      apply Classical.byContradiction
+      intro hn; apply hv; intro x hx
+      apply Classical.byContradiction
+      intro hlt; exact hn ⟨x, hx, by omega⟩
+    rw [roll_list_rejects a shift axs hlen hne this]; exact fun h => nomatch h
+
+/-- **rot90 of an empty array** (rank ≥ 2, valid axes), arm by arm: `k ≡ 0`: unchanged; `k ≡ 2`: the two flips; `k ≡ 1`:
+the flip of the second axis, then the exchanged (empty) shape; `k ≡ 3`: the exchange, then the flip on the exchanged shape -/
+theorem rot90_empty (a : Arr α) (zero : α) (k : Nat) (a0 a1 : Int) (hwf : a.WF) (hz : 0 ∈ a.shape)
+    (hnd : 2 ≤ a.ndim) (h0 : -(a.ndim : Int) ≤ a0 ∧ a0 < a.ndim) (h1 : -(a.ndim : Int) ≤ a1 ∧ a1 < a.ndim) :
+    a.rot90 zero k [a0, a1] =
+      if k % 4 = 0 then .ok a
+      else if k % 4 = 2 then
+        (if 0 ∈ cutAxes (normalizeAxis a.ndim a1) a.shape ∨ 0 ∈ cutAxes (normalizeAxis a.ndim a0) a.shape
+         then .err .ParameterError else .ok a)
+      else if k % 4 = 1 then
+        (if 0 ∈ cutAxes (normalizeAxis a.ndim a1) a.shape then .err .ParameterError
+         else .ok ⟨[], permute (swapOrder a.ndim (normalizeAxis a.ndim a0) (normalizeAxis a.ndim a1)) a.shape⟩)
+      else
+        (if 0 ∈ cutAxes (normalizeAxis a.ndim a1)
+              (permute (swapOrder a.ndim (normalizeAxis a.ndim a0) (normalizeAxis a.ndim a1)) a.shape)
+         then .err .ParameterError
+         else .ok ⟨[], permute (swapOrder a.ndim (normalizeAxis a.ndim a0) (normalizeAxis a.ndim a1)) a.shape⟩) := by
+  have hi := normalize_lt _ _ h0.1 h0.2
+  have hj := normalize_lt _ _ h1.1 h1.2
+  obtain ⟨hsw, hzT⟩ := swap_empty a zero _ _ hwf hz hi hj
+  have ej : normalizeAxis a.ndim (Int.ofNat (normalizeAxis a.ndim a1)) = normalizeAxis a.ndim a1 := normalizeAxis_ofNat _ _
+  rw [rot90_unfold a zero k a0 a1 hnd h0 h1]
+  rcases (by omega : k % 4 = 0 ∨ k % 4 = 1 ∨ k % 4 = 2 ∨ k % 4 = 3) with h | h | h | h
+  · rw [h]; rfl
+  · rw [h, if_neg (by omega), if_neg (by omega), if_pos rfl, if_neg (by omega), if_neg (by omega), if_pos rfl]
+    unfold Arr.turn
+    rw [flip_axis_empty a _ hwf hz (by rw [ej]; exact hj), ej]
+    split
+    · rfl
+    · rw [Res.bind_ok, hsw]
+  · rw [h, if_neg (by omega), if_pos rfl, if_neg (by omega), if_pos rfl]
+    rw [flip_axis_empty a a1 hwf hz hj]
+    by_cases c1 : 0 ∈ cutAxes (normalizeAxis a.ndim a1) a.shape
+    · rw [if_pos c1, if_pos (Or.inl c1)]; rfl
+    · rw [if_neg c1, Res.bind_ok, flip_axis_empty a a0 hwf hz hi]
+      by_cases c0 : 0 ∈ cutAxes (normalizeAxis a.ndim a0) a.shape
+      · rw [if_pos c0, if_pos (Or.inr c0)]
+      · rw [if_neg c0, if_neg (by rintro (h | h); exact c1 h; exact c0 h)]
+  · rw [h, if_neg (by omega), if_neg (by omega), if_neg (by omega), if_neg (by omega), if_neg (by omega), if_neg (by omega)]
+    rw [hsw, Res.bind_ok]
+    have hTwf : (⟨[], permute (swapOrder a.ndim (normalizeAxis a.ndim a0) (normalizeAxis a.ndim a1)) a.shape⟩ : Arr α).WF := by
+      simp only [Arr.WF, List.length_nil]; exact (prod_eq_zero_of_mem _ hzT).symm
+    have hTnd : (⟨[], permute (swapOrder a.ndim (normalizeAxis a.ndim a0) (normalizeAxis a.ndim a1)) a.shape⟩ : Arr α).ndim = a.ndim :=
+      permute_swap_length _ _ _ _
+    have := flip_axis_empty _ (Int.ofNat (normalizeAxis a.ndim a1)) hTwf hzT (by rw [hTnd, ej]; exact hj)
+    rw [hTnd, ej] at this
+    exact this
+
+/-- **rot90 is total up to the refusal on empty arrays**: EVERY well-formed array of rank ≥ 2, every `k`, every valid ordered
+axis pair: success with a well-formed result whose shape is kept (even `k`) or has the two axis lengths exchanged (odd `k`),
+or — only when the array has a zero-length axis — `Err(ParameterError)` -/
+theorem rot90_total (a : Arr α) (zero : α) (k : Nat) (a0 a1 : Int) (hwf : a.WF)
+    (hnd : 2 ≤ a.ndim) (h0 : -(a.ndim : Int) ≤ a0 ∧ a0 < a.ndim) (h1 : -(a.ndim : Int) ≤ a1 ∧ a1 < a.ndim) :
+    (∃ r, a.rot90 zero k [a0, a1] = .ok r ∧ r.WF ∧
+      r.shape = (if k % 2 = 0 then a.shape
+                 else permute (swapOrder a.ndim (normalizeAxis a.ndim a0) (normalizeAxis a.ndim a1)) a.shape)) ∨
+    (0 ∈ a.shape ∧ a.rot90 zero k [a0, a1] = .err .ParameterError) := by
+  by_cases hz : 0 ∈ a.shape
+  · have hi := normalize_lt _ _ h0.1 h0.2
+    have hj := normalize_lt _ _ h1.1 h1.2
+    obtain ⟨_, hzT⟩ := swap_empty a zero _ _ hwf hz hi hj
+    have hTwf : (⟨[], permute (swapOrder a.ndim (normalizeAxis a.ndim a0) (normalizeAxis a.ndim a1)) a.shape⟩ : Arr α).WF := by
+      simp only [Arr.WF, List.length_nil]; exact (prod_eq_zero_of_mem _ hzT).symm
+    rw [rot90_empty a zero k a0 a1 hwf hz hnd h0 h1]
+    rcases (by omega : k % 4 = 0 ∨ k % 4 = 1 ∨ k % 4 = 2 ∨ k % 4 = 3) with h | h | h | h
+    · rw [if_pos h]; exact Or.inl ⟨a, rfl, hwf, by rw [if_pos (by omega)]⟩
+    · rw [if_neg (by omega), if_neg (by omega), if_pos h]
+      split
+      · exact Or.inr ⟨hz, rfl⟩
+      · exact Or.inl ⟨_, rfl, hTwf, by rw [if_neg (by omega)]⟩
+    · rw [if_neg (by omega), if_pos h]
+      split
+      · exact Or.inr ⟨hz, rfl⟩
+      · exact Or.inl ⟨a, rfl, hwf, by rw [if_pos (by omega)]⟩
+    · rw [if_neg (by omega), if_neg (by omega), if_neg (by omega)]
+      split
+      · exact Or.inr ⟨hz, rfl⟩
+      · exact Or.inl ⟨_, rfl, hTwf, by rw [if_neg (by omega)]⟩
+  · have hpos : ∀ d ∈ a.shape, 0 < d := fun d hd => Nat.pos_of_ne_zero (fun e => hz (e ▸ hd))
+    obtain ⟨r, p1, p2, p3, _⟩ := rot90_at a zero k a0 a1 hwf hpos hnd h0 h1
+    exact Or.inl ⟨r, p1, p2, p3⟩
+
+/-- **rot90 never panics**: every well-formed array (any rank, zero-length axes or not), every `k`, every axes list
+(a pair or not, in range or not) -/
+theorem rot90_never_panics (a : Arr α) (zero : α) (k : Nat) (axes : List Int) (hwf : a.WF) :
+    a.rot90 zero k axes ≠ .panic := by
+  by_cases hnd : 2 ≤ a.ndim
+  swap
+  · rw [rot90_rejects_rank a zero k axes (by omega)]; exact fun h => nomatch h
+  rcases axes with _ | ⟨a0, _ | ⟨a1, _ | ⟨a2, rest⟩⟩⟩
+  · unfold Arr.rot90; split <;> exact fun h => nomatch h
+  · unfold Arr.rot90; split <;> exact fun h => nomatch h
+  · by_cases hv : (-(a.ndim : Int) ≤ a0 ∧ a0 < a.ndim) ∧ (-(a.ndim : Int) ≤ a1 ∧ a1 < a.ndim)
+    · rcases rot90_total a zero k a0 a1 hwf hnd hv.1 hv.2 with ⟨r, h, _⟩ | ⟨_, h⟩ <;> rw [h] <;> exact fun h => nomatch h
+    · rw [rot90_rejects_axes a zero k a0 a1 hnd hv]; exact fun h => nomatch h
+  · unfold Arr.rot90; split <;> exact fun h => nomatch h
+
+/-! ### non-vacuity of the extension: shapes `[2,0]`, `[0,3]`, `[2,0,3]` -/
+example : (⟨[], [2, 0]⟩ : Arr Nat).WF ∧ (⟨[], [0, 3]⟩ : Arr Nat).WF ∧ (⟨[], [2, 0, 3]⟩ : Arr Nat).WF := by decide
+example : cutAxes 0 [2, 0] = [2] ∧ cutAxes 1 [2, 0] = [2] ∧ cutAxes 0 [0, 3] = [0] ∧ cutAxes 1 [0, 3] = [0] ∧
+    cutAxes 0 [2, 0, 3] = [2] ∧ cutAxes 1 [2, 0, 3] = [2, 0] ∧ cutAxes 2 [2, 0, 3] = [2, 0] ∧ cutAxes 0 [0] = [0] := by decide
+example := flip_axis_empty (⟨[], [2, 0, 3]⟩ : Arr Nat) (-3) (by decide) (by decide) (by decide)
+example := rot90_empty (⟨[], [2, 0]⟩ : Arr Nat) 0 3 0 1 (by decide) (by decide) (by decide) (by decide) (by decide)
+example : (⟨[], [2, 0]⟩ : Arr Nat).flip (some [0]) = .ok ⟨[], [2, 0]⟩ ∧ (⟨[], [2, 0]⟩ : Arr Nat).flip (some [1]) = .ok ⟨[], [2, 0]⟩ := by decide
+example : (⟨[], [0, 3]⟩ : Arr Nat).flip (some [0]) = .err .ParameterError ∧
+    (⟨[], [0, 3]⟩ : Arr Nat).flip (some [-1]) = .err .ParameterError ∧ (⟨[], [0, 3]⟩ : Arr Nat).flip none = .ok ⟨[], [0, 3]⟩ := by decide
+example : (⟨[], [2, 0, 3]⟩ : Arr Nat).flip (some [0]) = .ok ⟨[], [2, 0, 3]⟩ ∧
+    (⟨[], [2, 0, 3]⟩ : Arr Nat).flip (some [1]) = .err .ParameterError ∧
+    (⟨[], [2, 0, 3]⟩ : Arr Nat).flip (some [2]) = .err .ParameterError ∧
+    (⟨[], [2, 0, 3]⟩ : Arr Nat).flip (some [0, 0]) = .ok ⟨[], [2, 0, 3]⟩ := by decide
+example : (⟨[], [0]⟩ : Arr Nat).flip (some [0]) = .err .ParameterError ∧ (⟨[], [0]⟩ : Arr Nat).roll [5] (some [0]) = .ok ⟨[], [0]⟩ := by decide
+example : (⟨[], [2, 0]⟩ : Arr Nat).roll [7] (some [1]) = .ok ⟨[], [2, 0]⟩ ∧ (⟨[], [2, 0]⟩ : Arr Nat).roll [-1] (some [0]) = .ok ⟨[], [2, 0]⟩ ∧
+    (⟨[], [0, 3]⟩ : Arr Nat).roll [1] (some [0]) = .err .ParameterError ∧ (⟨[], [0, 3]⟩ : Arr Nat).roll [1] (some [1]) = .err .ParameterError ∧
+    (⟨[], [0, 3]⟩ : Arr Nat).roll [1] none = .ok ⟨[], [0, 3]⟩ := by decide
+example : (⟨[], [2, 0, 3]⟩ : Arr Nat).roll [1, 2] (some [0, 0]) = .ok ⟨[], [2, 0, 3]⟩ ∧
+    (⟨[], [2, 0, 3]⟩ : Arr Nat).roll [1, 2] (some [0, 2]) = .err .ParameterError := by decide
+example : (⟨[], [2, 0]⟩ : Arr Nat).rot90 0 1 [0, 1] = .ok ⟨[], [0, 2]⟩ ∧ (⟨[], [2, 0]⟩ : Arr Nat).rot90 0 2 [0, 1] = .ok ⟨[], [2, 0]⟩ ∧
+    (⟨[], [2, 0]⟩ : Arr Nat).rot90 0 3 [0, 1] = .err .ParameterError ∧ (⟨[], [2, 0]⟩ : Arr Nat).rot90 0 4 [0, 1] = .ok ⟨[], [2, 0]⟩ := by decide
+example : (⟨[], [0, 3]⟩ : Arr Nat).rot90 0 1 [0, 1] = .err .ParameterError ∧ (⟨[], [0, 3]⟩ : Arr Nat).rot90 0 3 [0, 1] = .ok ⟨[], [3, 0]⟩ := by decide
+example : (⟨[], [2, 0, 3]⟩ : Arr Nat).rot90 0 1 [0, 2] = .err .ParameterError ∧
+    (⟨[], [2, 0, 3]⟩ : Arr Nat).rot90 0 1 [2, 0] = .ok ⟨[], [3, 0, 2]⟩ := by decide
 
 end ArrModel.C12
